@@ -80,6 +80,14 @@ def _run(ck: core.Check, pool):
         seed = rng.randrange(10**6)
         for sel in ("reference", "onnxruntime"):
             tasks.append({"level": "c07prog", "steps": steps, "sel": sel, "seed": seed})
+    # derived types: one operator whose inference reads a constant operand, boundary constants, const / argument data
+    n_der = ck.pick(6, 60)
+    for t in P.DERIVED_TEMPLATES:
+        for _ in range(n_der):
+            steps = P.gen_derived_program(rng, t)
+            seed = rng.randrange(10**6)
+            for sel in ("reference", "onnxruntime"):
+                tasks.append({"level": "c07prog", "steps": steps, "sel": sel, "seed": seed, "derived": t})
     pending = pool.map_async(_task, tasks, chunksize=4)
 
     # ---- prove
@@ -122,6 +130,7 @@ def _run(ck: core.Check, pool):
     ck.sample({"program": tasks[0]["steps"][:6], "sel": tasks[0]["sel"]})
     ck.cov.update({
         "oracle_programs": len(tasks), "oracle_totals": tot,
+        "derived_type_templates": P.DERIVED_TEMPLATES, "derived_type_programs": sum(1 for t in tasks if t.get("derived")),
     })
     ck.exhaustive = False
     ck.rule = (
@@ -176,7 +185,7 @@ def _correspond(ck, rng):
         hist_meta.append({"steps": steps, "sel": sel, "fault": fault})
     # ---- tie H (2): node-level mapping cases
     node_cases = [c for c in N.gen_cases(rng, False)
-                  if c["node"]["kind"] in ("topk", "split", "inline", "inline0") or c["node"].get("op") in ("topk", "split", "unique")]
+                  if c["node"]["kind"] in ("topk", "split", "inline", "inline0", "inline_noinput") or c["node"].get("op") in ("topk", "split", "unique")]
     def safe(fn, c):
         try:
             return fn(c)
